@@ -80,6 +80,7 @@ func histPlans(prop, tier string) []histPlan {
 	case "C13":
 		ps = append(ps, histPlan{nsqd.HistCfg{MemQ: 8, MaxMsgs: 3, Chans: 2, Cons: 2, Admin: true}, d - 1})
 		ps = append(ps, histPlan{nsqd.HistCfg{MemQ: 1, MaxBytes: 64, MaxMsgs: 3, Chans: 1, Cons: 1, Admin: true}, d})
+		ps = append(ps, histPlan{nsqd.HistCfg{MemQ: 0, MaxMsgs: 3, Chans: 1, Cons: 1, IOFault: true}, d - 2})
 	case "C02":
 		// two consumers on one channel, and one consumer on each of two channels, all
 		// subscribed and ready before the explored part starts
@@ -151,8 +152,8 @@ func histCheck(prop, tier, level string) int {
 		var specs []nsqd.MicroSpec
 		for _, st := range []string{"inflight", "expired", "queued", "deferred"} {
 			for _, mq := range []int64{10, 0} {
-				for _, op := range []string{"scan", "fin1", "req1", "req1d", "touch1", "rdy2", "pub", "disc1", "pause_ch", "stats"} {
-					if st == "queued" && op != "rdy2" && op != "pub" && op != "pause_ch" {
+				for _, op := range []string{"scan", "fin1", "req1", "req1d", "touch1", "rdy2", "pub", "disc1", "pause_ch", "stats", "create_ch2"} {
+					if st == "queued" && op != "rdy2" && op != "pub" && op != "pause_ch" && op != "create_ch2" {
 						continue
 					}
 					specs = append(specs, nsqd.MicroSpec{State: st, MemQ: mq, Ops: []string{op, "exit"}})
@@ -206,8 +207,16 @@ func histCheck(prop, tier, level string) int {
 			for _, op := range []string{"got2_req2d", "got2_req2", "got2_touch2"} {
 				specs = append(specs, nsqd.MicroSpec{State: "defexp", MemQ: mq, Unbuf: true, Ops: []string{"scan", op}})
 			}
+			// channels created / deleted / re-created while messages flow: the topic pump's
+			// snapshot of its channels
+			for _, st := range []string{"inflight", "queued"} {
+				for _, ops := range [][]string{{"create_ch2", "pub"}, {"del_ch", "create_ch2", "pub"}, {"del_ch", "sub3", "pub"}, {"create_ch2", "del_ch"}} {
+					specs = append(specs, nsqd.MicroSpec{State: st, MemQ: mq, Ops: ops})
+				}
+			}
 		}
 		runMicros(rep, specs, 20, false)
+		runMicrosDelay(rep, specs, 40, 1, true) // every schedule with <= 1 deviation, completed
 	}
 	if prop == "C03" || prop == "C13" {
 		// E1 complement: the consumer's in-flight count under concurrency with Empty
